@@ -968,8 +968,10 @@ def run(report):
         r2 = C.case_rng(report.seed, i, "c10m")
         modtext = "# in module\nbar:\n  echo bar\n\nbaz x='1':\n    echo {{x}}\n"
         root = []
-        root.append(r2.choice(["mod foo", "mod? foo", "mod foo 'foo.just'", "# module doc\nmod foo", "[group('mg')]\nmod foo", "[doc('d')]\nmod foo"]))
-        root.append(r2.choice(["import 'imp.just'", "import? 'imp.just'", "import? 'missing.just'", ""]))
+        # (a comment separated from the `mod` / `import` by a blank line is a free comment, not documentation)
+        root.append(r2.choice(["mod foo", "mod? foo", "mod foo 'foo.just'", "# module doc\nmod foo", "[group('mg')]\nmod foo", "[doc('d')]\nmod foo",
+                               "# free comment\n\nmod foo", "# free comment\n\n[group('mg')]\nmod foo"]))
+        root.append(r2.choice(["import 'imp.just'", "import? 'imp.just'", "import? 'missing.just'", "", "# free comment\n\nimport 'imp.just'"]))
         root.append(r2.choice(["alias b := foo::bar", "alias b := foo::baz", "[private]\nalias b := foo::bar", ""]))
         root.append(r2.choice(["bar:\n  echo rootbar", "top:\n  echo top", ""]))
         r2.shuffle(root)
